@@ -38,6 +38,14 @@ CLAIMS = {
             "cancelled future runs only destructors); the availability query answers only from the dependencies map/hint bits. "
             "Verdict equality with a fresh solver is not decided.",
             "DESIGN.md section 4 C13"),
+    "C20": ("sibling-agreement of the two filter call sites, def-use provenance of the sorted list, operation allow-list for the favored move, truthful availability query (MIR)",
+            "Decides the structural clause of C20: memoisation/choke points (no second provider call), inverse flag <-> destination "
+            "map agreement with the queried version set and the package's full candidate list, the list handed to sort_candidates "
+            "is a copy of the matching list and after the sort is touched only in the favored branch by rotate_right(1) on "
+            "[0..=position(favored)], availability answers only from the dependencies map/hint bits, hint bits written per the "
+            "provider's hint arms, and no RefCell borrow across an await (re-entrancy from sort_candidates). Value-level equality "
+            "with filter_candidates' definition is not decided.",
+            "DESIGN.md section 4 C20"),
     "C12": ("MIR guard-dominance + def-use + must-use census (rustc_private driver)",
             "Decides the structural clause of C12 on every path of the type-checked MIR: each solver-side provider fetch is "
             "dominated by the None edge of a cancellation poll with no suspension point in between and the Some edge returns "
